@@ -437,10 +437,10 @@ Definition dense_rules : list frule :=
     mkFR "error" [("msg", 1)] [] []; mkFR "error" [("msg", 8)] [] []; mkFR "error" [("msg", 9)] [] [];
     mkFR "nil" [("msg", 10)] [("msg", 10)] [];
     mkFR "nil" [("msg", 5)] [("info", 1); ("info", 2); ("info", 3); ("info", 4); ("info", 5); ("info", 6)] [] ].
-Definition way_rules : list frule := [ mkFR "use" [("msg", 2); ("msg", 3)] [] ["set:Way.Tags"; "call:scanTags"] ].
+Definition way_rules : list frule := [ mkFR "use" [("msg", 2); ("msg", 3)] [] ["set:Way.Tags"] ].
 Definition rel_rules : list frule :=
-  [ mkFR "use" [("msg", 2); ("msg", 3)] [] ["set:Relation.Tags"; "call:scanTags"];
-    mkFR "use" [("msg", 8); ("msg", 9); ("msg", 10)] [] ["set:Relation.Members"; "call:extractMembers"] ].
+  [ mkFR "use" [("msg", 2); ("msg", 3)] [] ["set:Relation.Tags"];
+    mkFR "use" [("msg", 8); ("msg", 9); ("msg", 10)] [] ["set:Relation.Members"] ].
 
 Definition ref_eqb (a b : string * Z) : bool := String.eqb (fst a) (fst b) && (snd a =? snd b).
 (* is iterator [col] set to nil, given the flags of scope [sc]? *)
